@@ -886,6 +886,25 @@ def do_vwrite(env, st, i):
     return [(mop, cmp)]
 
 
+@step('mkdup')
+def do_mkdup(env, st, i):
+    """make_empty with a pre-allocation list that names a coverage pixel twice: either rejected, or the map it
+    returns obeys the layout (one block per covered coverage pixel plus the overflow block)"""
+    cp = [int(c) for c in st['cov_pixels']]
+    try:
+        m = HealSparseMap.make_empty(st['nc'], st['ns'], DT[st['dtype']], cov_pixels=np.array(cp))
+    except ValueError:
+        return []
+    except Exception as e:  # noqa
+        return fail(i, 'make_empty with repeated coverage pixels raised %s: %s' % (type(e).__name__, e))
+    nfine = (st['ns'] // st['nc']) ** 2
+    ncovd = int(np.sum(m.coverage_mask))
+    if len(m._sparse_map) != (ncovd + 1) * nfine:
+        return fail(i, 'make_empty accepted repeated coverage pixels: %d storage blocks for %d covered coverage pixels'
+                    % (len(m._sparse_map) // nfine, ncovd))
+    return []
+
+
 @step('vrange')
 def do_vrange(env, st, i):
     """a write through a fresh single-field view addressed by half-open pixel RANGES that contain at least one pixel
